@@ -33,7 +33,7 @@ func setDDL(yylex interface{}, ddl *DDL) {
 
 func incNesting(yylex interface{}) bool {
   yylex.(*Tokenizer).nesting++
-  if yylex.(*Tokenizer).nesting == 200 {
+  if yylex.(*Tokenizer).nesting == maxNesting {
     return true
   }
   return false
